@@ -480,6 +480,7 @@ class Func:
                 if isinstance(c, dict) and c.get('k') == 'int':
                     b.succ = [b.succ[0] if c['v'] else b.succ[1]]
         self._resolve_joined_conditions()
+        self._merge_linear()
         self._preds = None
         for b in self.blocks.values():
             for i, e in enumerate(b.events):
@@ -493,6 +494,37 @@ class Func:
                 self.copyprop = copy_propagate(self)
             except AnalysisBroken:
                 self.copyprop = 0
+
+    def _merge_linear(self):
+        """Merge straight-line block chains (a `do { } while (0)` macro body, an empty
+        join) so that block-local idioms are recognised whatever statement structure
+        separates their parts; then fuse list idioms again."""
+        if not self.blocks:
+            return
+        merged_any = False
+        npred = {b: 0 for b in self.blocks}
+        for b in self.blocks.values():
+            for s_ in b.succ:
+                if s_ is not None and s_ in npred:
+                    npred[s_] += 1
+        for aid in sorted(self.blocks):
+            a = self.blocks.get(aid)
+            if a is None or a.id == self.exit:
+                continue
+            while not a.noreturn and len(a.succ) == 1:
+                t = a.succ[0]
+                if t is None or t == a.id or t == self.exit or t == self.entry or npred.get(t) != 1 or t not in self.blocks:
+                    break
+                bt = self.blocks[t]
+                a.events = a.events + bt.events
+                a.succ = list(bt.succ)
+                a.term = bt.term
+                a.noreturn = bt.noreturn
+                del self.blocks[t]
+                merged_any = True
+        if merged_any:
+            for b in self.blocks.values():
+                b.events = _fuse_list_idioms(b.events)
 
     def pristine(self):
         """the same function without copy propagation (for rules about what the
@@ -1000,34 +1032,47 @@ def _partition_one(fn, name, max_blocks):
     def is_def(e):
         return e['ev'] == 'store' and strip(e['lhs']).get('k') == 'var' and strip(e['lhs'])['name'] == name
 
+    # per event: 'd' = defines the flag without reading it, 'r' = reads it, '' = neither
+    kind = {}
+    termreads = {}
+    for b, blk in fn.blocks.items():
+        termreads[b] = bool(blk.term and blk.term.get('cond') is not None and reads_flag(blk.term['cond']))
+        for e in blk.events:
+            if is_def(e):
+                kind[id(e)] = 'r' if reads_flag(e.get('rhs', {})) else 'd'
+            elif any(reads_flag(x) for k_, x in e.items() if isinstance(x, (dict, list))):
+                kind[id(e)] = 'r'
+            else:
+                kind[id(e)] = ''
+
+    def back(blk, lv, i0=0):
+        for e in reversed(blk.events[i0:]):
+            k_ = kind[id(e)]
+            if k_ == 'd':
+                lv = False
+            elif k_ == 'r':
+                lv = True
+        return lv
+
     live_in = {b: False for b in fn.blocks}
     changed = True
     while changed:
         changed = False
         for b, blk in fn.blocks.items():
-            lv = any(live_in.get(s, False) for s in blk.succ if s is not None)
-            if blk.term and blk.term.get('cond') is not None and reads_flag(blk.term['cond']):
-                lv = True
-            for e in reversed(blk.events):
-                if is_def(e):
-                    lv = reads_flag(e.get('rhs', {}))
-                elif any(reads_flag(x) for k_, x in e.items() if isinstance(x, (dict, list))):
-                    lv = True
+            lv = termreads[b] or any(live_in.get(s, False) for s in blk.succ if s is not None)
+            lv = back(blk, lv)
             if lv != live_in[b]:
                 live_in[b] = lv
                 changed = True
 
+    _live_cache = {}
+
     def live_at(b, i):
-        blk = fn.blocks[b]
-        lv = any(live_in.get(s, False) for s in blk.succ if s is not None)
-        if blk.term and blk.term.get('cond') is not None and reads_flag(blk.term['cond']):
-            lv = True
-        for e in reversed(blk.events[i:]):
-            if is_def(e):
-                lv = reads_flag(e.get('rhs', {}))
-            elif any(reads_flag(x) for k_, x in e.items() if isinstance(x, (dict, list))):
-                lv = True
-        return lv
+        if (b, i) not in _live_cache:
+            blk = fn.blocks[b]
+            lv = termreads[b] or any(live_in.get(s, False) for s in blk.succ if s is not None)
+            _live_cache[(b, i)] = back(blk, lv, i)
+        return _live_cache[(b, i)]
 
     newblocks = {}
     ids = {}
@@ -1165,7 +1210,39 @@ def _normalise_events(events):
                     continue
         res.append(e)
         i += 1
-    return res
+    return _fuse_list_idioms(res)
+
+
+def _fuse_list_idioms(evs):
+    """iv_list_del(x); INIT_IV_LIST_HEAD(x)  ==  iv_list_del_init(x)
+    INIT_IV_LIST_HEAD(n); iv_list_splice[_tail]_init(o, n)  ==  __iv_list_steal_elements(o, n)
+    (adjacent in one block, only reads in between)."""
+    def callee(e):
+        return e.get('callee') if e['ev'] == 'call' else None
+    out = []
+    i = 0
+    while i < len(evs):
+        e = evs[i]
+        c = callee(e)
+        if c in ('iv_list_del', 'INIT_IV_LIST_HEAD') and e.get('args'):
+            j = i + 1
+            while j < len(evs) and evs[j]['ev'] == 'load':
+                j += 1
+            if j < len(evs):
+                n = evs[j]
+                if c == 'iv_list_del' and callee(n) == 'INIT_IV_LIST_HEAD' and canon(n['args'][0]) == canon(e['args'][0]):
+                    out.append(dict(e, callee='iv_list_del_init', fused=True))
+                    i = j + 1
+                    continue
+                if c == 'INIT_IV_LIST_HEAD' and callee(n) in ('iv_list_splice_init', 'iv_list_splice_tail_init') \
+                        and len(n.get('args', [])) == 2 and canon(n['args'][1]) == canon(e['args'][0]):
+                    out.extend(evs[i + 1:j])
+                    out.append(dict(n, callee='__iv_list_steal_elements', fused=True))
+                    i = j + 1
+                    continue
+        out.append(e)
+        i += 1
+    return out
 
 
 class Program:
